@@ -354,6 +354,8 @@ def match_known(prop, cex):
             continue
         if "tag" in m and m["tag"] not in cex.get("tags", []):
             continue
+        if "note_re" in m and not re.search(m["note_re"], " ".join((cex.get("native") or {}).get("notes") or [])):
+            continue
         if "model_eq" in m and any((cex.get("model") or {}).get(k) != v for k, v in m["model_eq"].items()):
             continue
         if "input_re" in m and not re.search(m["input_re"], bytes(cex.get("input", [])).decode("latin-1"), re.S):
